@@ -7,14 +7,14 @@ from hypothesis import strategies as st
 from pbt import strategies as S
 from pbt.common import Stats, Sub, Violation
 from pbt.model import Model, uri_prefixes_of
-from pbt.sut import Converter, mk_record, mk_records
+from pbt.sut import Converter, mk_incremental_queried, mk_record, mk_records
 
 PROPERTY_ID = "C01"
 RULE = (
     "Generated: strict converters over a lattice of nested/overlapping/one-character-different URI prefixes "
     "(incl. the empty URI prefix, synonyms nested in other records' prefixes, any delimiter), each materialised "
-    "four ways (given order, permuted, incrementally added in another permutation, incrementally merged synonym by "
-    "synonym) and probed with boundary strings around every registered prefix plus random strings. "
+    "five ways (given order, permuted, incrementally added in another permutation, incrementally merged synonym by "
+    "synonym, and incrementally with every probe queried after every single mutation so that stale caches show) and probed with boundary strings around every registered prefix plus random strings. "
     "One evaluation = one (converter, probe) pair compared with the naive longest-match model on all variants. "
     "Non-trivial = the probe is matched by >=2 registered URI prefixes of different records, or equals a registered "
     "prefix, or is one character short of one, or is matched only by a registered empty URI prefix; distinct by "
@@ -61,6 +61,14 @@ def _variants(case):
         for syn in r["uri_prefix_synonyms"]:
             mrg.add_record(mk_record({"prefix": r["prefix"], "uri_prefix": syn}), merge=True)
     out["merged"] = mrg
+
+    def queries(c):
+        for u in case["probes"]:
+            c.parse_uri(u, return_none=True)
+            c.compress(u)
+            c.is_uri(u)
+
+    out["incremental-with-interleaved-queries"] = mk_incremental_queried(spec, case["perm1"], queries)
     return out
 
 
@@ -125,3 +133,7 @@ SUBS = [
         required_classes=("nt:multi-match-different-records", "empty-uri-prefix-registered", "nt:one-char-short"),
     )
 ]
+
+from pbt.fuzzstage import atheris_sub  # noqa: E402
+
+SUBS.append(atheris_sub("C01", SUBS[0].check))
